@@ -83,6 +83,10 @@ func (c Cfg) Load() (*config.Root, error) {
 	setenv("INBUCKET_SMTP_STOREDOMAINS", c.Sto)
 	setenv("INBUCKET_SMTP_DISCARDDOMAINS", c.Dis)
 	setenv("INBUCKET_SMTP_REJECTORIGINDOMAINS", c.RejO)
+	// an operator's setting, not the default of 300 s: no generated dialogue waits on purpose (pauses are scripted
+	// events of the connection, not clock time), so the only thing this shortens is how long a server that has begun to
+	// wait for something keeps a case busy before its answer can be compared
+	setenv("INBUCKET_SMTP_TIMEOUT", "30s")
 	return config.Process()
 }
 
